@@ -18,8 +18,14 @@ def make_compare(key):
             # what an operator history ends in is judged by the partition specification only (pins, relation exemptions and
             # schedules of histories are C04's and C05's subject)
             return {"skipped": True}
+        if info.get("clustered") and key == "replay":
+            # vicinity clustering: of the replay specification only the commute clause applies (every reported commute leg is the
+            # routing data of the clustering profile in the direction travelled)
+            ok = verdict.get("oracle", {}).get("commute")
+            msgs = info.get("commute", [])
+            return {"agree": True, "holds": bool(ok), "detail": "" if ok else "commute legs violated: " + "; ".join(msgs[:4])}
         if info.get("clustered") and key != "partition":
-            # vicinity clustering (commute, parking) is outside the feasibility / replay specifications
+            # vicinity clustering (commute, parking) is outside the feasibility specification
             return {"skipped": True}
         ok = verdict.get("oracle", {}).get(key)
         msgs = info.get(key, [])
